@@ -20,7 +20,7 @@ def _build():
 def _check_level(s, r, prefix, viols, stats, lvl):
     Aref, pattern, dirichlet, info = ol.reference_A(r, prefix)
     sc = ol.rowscale(Aref)
-    names = [k[len(prefix):] for k in r if k.startswith(prefix + "A_") and not k.endswith("_affdev")
+    names = [k[len(prefix):] for k in r if k.startswith(prefix + "A_") and not k.endswith(("_affdev", "_linx", "_liny"))
              and "/" not in k[len(prefix):]]
     mats = {}
     for nm in sorted(names):
@@ -30,6 +30,13 @@ def _check_level(s, r, prefix, viols, stats, lvl):
         if aff != 0.0:
             viols.append(("affine:%s:L%d" % (nm, lvl), "residual(rhs=e_j, x=0) is not exactly e_j (deviation %.3g)" % aff,
                           {"matrix": nm, "level": lvl}))
+        if prefix + nm + "_linx" in r:
+            ld = ol.lin_deviation(A, r[prefix + nm + "_linx"], r[prefix + nm + "_liny"])
+            stats["worst_linearity"] = max(stats.get("worst_linearity", 0.0), ld)
+            if not ld <= ol.LIN_TOL:
+                viols.append(("nonlinear:%s" % nm.split("_")[1][:4], "%s applied to a generic vector (O(1), 1e-20 or 1e18 in size) differs from "
+                              "its matrix times the vector by %.3g: the operator is not linear in u (value-dependent shortcut?)" % (nm, ld),
+                              {"matrix": nm, "level": lvl}))
         D = np.abs(A - Aref) / sc[:, None]
         w = float(D.max())
         stats["worst_rel"] = max(stats.get("worst_rel", 0.0), w)
@@ -155,7 +162,7 @@ def run(tier, cases=None, rep=None):
         "chain_levels_checked": int(tot.get("levels", 0)),
         "worst_rel_vs_reference": tot.get("worst_rel"),
         "worst_rel_between_implementations": tot.get("worst_pair"),
-        "worst_cache_ulp": tot.get("worst_cache_ulp"),
+        "worst_cache_ulp": tot.get("worst_cache_ulp"), "worst_linearity_deviation": tot.get("worst_linearity"),
         "tolerance": TOL,
         "rule": "states = grid/problem cases of the lattice (nr x ntheta x every split x boundary in full product; "
                 "spacing, geometry, profile, R0, Rmax, thread count cycled); transitions = operator applications to unit "
